@@ -13,7 +13,7 @@
 //@ check w_c01_chunkings  kind=bounded bound=5-commands,read-chunk-sizes-in-{1,2,3,5,7,64,4096},one-17MiB-command fn=run_on
 //@ check w_c02_dispatch   kind=bounded bound=fixed-script-of-22-commands fn=run_on
 //@ check w_c03_responses  kind=bounded bound=11-writer-programs,text-and-binary fn=run_on
-//@ check w_c04_big        kind=bounded bound=row-sizes-k*(2^24-1)+d,k<=2,d-in-{-5..5},also-1000 fn=run_on
+//@ check w_c04_big        kind=bounded bound=row-sizes-k*(2^24-1)+d,k<=2,d-in-{-5..5},also-1000,text-and-binary-rows fn=run_on
 //@ check w_c05_seq        kind=bounded bound=request-ids-{0,1,100,254,255},responses-up-to-600-packets fn=run_on
 //@ check w_c07_binary     kind=bounded bound=column-counts-{1,6,7,14,15,30},null-patterns-alternating-and-all fn=run_on
 //@ check w_c08_params     kind=bounded bound=9-parameter-types,null-patterns,rebind-and-reuse fn=run_on
@@ -741,6 +741,27 @@ fn w_c04_big() {
         } else { panic!("[C04.w.reassembly] not a resultset") }
         let ping = parse_response(&m, &mut i).expect("[C04.w.boundary] reply after a big row not conformant");
         assert!(i == m.len() && ping.len() == 1, "[C04.w.boundary] stray packets after a big two-column row");
+        cases += 1;
+    }
+    // the same through the binary protocol (the row is buffered by the row writer and handed to the
+    // connection in one piece at end_row)
+    for blob in [MAXP as i64 - 10, MAXP as i64 - 5, MAXP as i64 - 4, MAXP as i64 + 1, 2 * MAXP as i64 - 5] {
+        let script = format!("setexec=big:{}", blob);
+        let r = converse(hs41(b"u", 0), &[(c_query(script.as_bytes()), 0), (c_prepare(b"p:1:0:0"), 0), (c_execute(1, &[], true), 0), (vec![0x0e], 0), quit()], vec![], false, None, None);
+        assert!(r.result.is_ok(), "[C04.w.run] big binary row failed: {:?}", r.result);
+        let m = replies(&r);
+        let mut i = 3;
+        let units = parse_response(&m, &mut i).unwrap_or_else(|e| panic!("[C04.w.reassembly] binary response with a {}-byte value not conformant after reassembly: {}", blob, e));
+        if let Resp::Rs { rows, .. } = &units[0] {
+            assert!(rows.len() == 1, "[C04.w.split] one binary row arrived as {} messages", rows.len());
+            let vals = bin_row(&rows[0], &[(252, false)]).unwrap_or_else(|e| panic!("[C04.w.reassembly] big binary row malformed ({} bytes written): {}", blob, e));
+            match &vals[0] {
+                BinVal::B(v) => assert!(v.len() as i64 == blob && v.iter().enumerate().all(|(k, b)| *b == (k % 251) as u8), "[C04.w.intact] a {}-byte value in a binary row arrived with {} bytes", blob, v.len()),
+                other => panic!("[C04.w.intact] big binary cell arrived as {:?}", other),
+            }
+        } else { panic!("[C04.w.reassembly] not a resultset") }
+        let ping = parse_response(&m, &mut i).expect("[C04.w.boundary] reply after a big binary row not conformant");
+        assert!(i == m.len() && ping.len() == 1, "[C04.w.boundary] stray packets after a big binary row");
         cases += 1;
     }
     // a transport that accepts only a few bytes per write call must not change what is sent
